@@ -328,7 +328,7 @@ def _var_vars(v, acc):
     if v[0] == 'C':
         acc.add(v)
         for x in v[2:]:
-            if isinstance(x, tuple):
+            if isinstance(x, (tuple, frozenset)):
                 for b in x:
                     if isinstance(b, tuple):
                         term_vars(b, acc)
@@ -529,3 +529,141 @@ def fmt_vec(v, w):
     if isinstance(v, int):
         return hex(v)
     return '<' + ' '.join(fmt_term(b) for b in reversed(v)) + '>'
+
+
+# ---- path conditions ---------------------------------------------------------
+
+class PathCond(object):
+    """The decisions of one world: [(term, bool)].  Equalities that the world
+    assumes (an 'any' atom decided false, i.e. every member is 0) are turned
+    into a substitution so that terms can be compared *under* the condition."""
+
+    def __init__(self, decisions=()):
+        self.decisions = list(decisions)
+        self.parent = {}
+        self.const = {}
+        for term, d in self.decisions:
+            atom, truth = _atom_truth(term, d)
+            if atom is not None and atom[1] == 'any' and not truth:
+                for m in atom[2]:
+                    self._zero(m)
+            elif atom is None:
+                # a plain variable / xor decided directly
+                self._zero(term if not d else b_not(term))
+        self.infeasible = False
+        for term, d in self.decisions:
+            t2 = self.apply(term)
+            if (t2 == 0 or t2 == 1) and bool(t2) != d:
+                self.infeasible = True
+
+    def _find(self, v):
+        while v in self.parent:
+            v = self.parent[v]
+        return v
+
+    def _zero(self, m):
+        """record m == 0 when m has the shape x, x^1, x^y or x^y^1"""
+        m = self.apply(m)
+        if m == 0 or m == 1 or is_unknown(m):
+            return
+        if m[0] in ('I', 'A'):
+            self.const[m] = 0
+            return
+        if m[0] != 'X':
+            return
+        ms = list(m[1])
+        one = frozenset() in ms
+        vs = [mm for mm in ms if mm]
+        if any(len(mm) != 1 for mm in vs):
+            return
+        vs = [next(iter(mm)) for mm in vs]
+        nc = [v for v in vs if v[0] == 'C']
+        if len(vs) == 1:
+            if not nc:
+                self.const[vs[0]] = 1 if one else 0
+        elif len(vs) == 2 and not one:
+            if len(nc) == 2:
+                return
+            if len(nc) == 1:
+                # a memory/argument bit equal to an opaque comparison result: rewrite the bit into the atom
+                other = [v for v in vs if v[0] != 'C'][0]
+                self.parent[other] = nc[0]
+            else:
+                a, b = sorted(vs, key=repr)
+                self.parent[b] = a
+
+    def trivial(self):
+        return not self.decisions
+
+    def apply(self, t):
+        if t == 0 or t == 1 or is_unknown(t):
+            return t
+        if not self.parent and not self.const:
+            return t
+        if t[0] in ('I', 'A'):
+            r = self._find(t)
+            if r[0] == 'C':
+                return r
+            return self.const.get(r, r)
+        if t[0] == 'C':
+            if t[1] == 'any':
+                return make_any([self.apply(b) for b in t[2]])
+            if t[1] == 'cmp':
+                l = tuple(self.apply(b) for b in t[3]) if isinstance(t[3], tuple) else t[3]
+                r = tuple(self.apply(b) for b in t[4]) if isinstance(t[4], tuple) else t[4]
+                return v_icmp(t[2], norm(l) if isinstance(l, tuple) else l, norm(r) if isinstance(r, tuple) else r, t[5])
+            return t
+        if t[0] == 'X':
+            acc = 0
+            for mono in t[1]:
+                p = 1
+                for v in mono:
+                    p = b_and(p, self.apply(v))
+                    if p == 0:
+                        break
+                acc = b_xor(acc, p)
+            return acc
+        return t
+
+    def holds(self, env):
+        for term, d in self.decisions:
+            try:
+                if bool(eval_term(term, env)) != d:
+                    return False
+            except ValueError:
+                return False
+        return True
+
+    def complete(self, env):
+        """extend an assignment of representatives to all merged variables"""
+        out = dict(env)
+        for v in list(self.parent):
+            r = self._find(v)
+            if r[0] == 'C':
+                try:
+                    out[v] = eval_atom(r, out)
+                except ValueError:
+                    out[v] = 0
+                continue
+            out[v] = self.const.get(r, env.get(r, 0))
+        for v, c in self.const.items():
+            out[v] = c
+        return out
+
+    def vars(self, acc):
+        for term, d in self.decisions:
+            term_vars(self.apply(term), acc)
+
+
+def _atom_truth(term, d):
+    if isinstance(term, tuple) and term and term[0] == 'C':
+        return term, d
+    if isinstance(term, tuple) and term and term[0] == 'X':
+        ms = term[1]
+        if len(ms) == 2 and frozenset() in ms:
+            (other,) = [m for m in ms if m]
+            if len(other) == 1:
+                (v,) = other
+                if v[0] == 'C':
+                    return v, (not d)
+    return None, d
